@@ -324,7 +324,10 @@ def grad_execs(ctx, r, nrep, with_props=True, with_energy_grads=True):
                     if with_energy_grads:
                         cmds += [{"op": "epartial", "obj": 1}, {"op": "epartial", "obj": 1, "via": "ref"},
                                  {"op": "egrad", "obj": 1}, {"op": "egrad", "obj": 1, "via": "ref"}, {"op": "egrad", "obj": 1, "via": "parts"},
-                                 {"op": "prop_epartial", "obj": 1}]
+                                 {"op": "prop_epartial", "obj": 1},
+                                 # caller-provided outputs that already have the right shape and hold garbage, then the same buffers again
+                                 {"op": "epartial", "obj": 1, "via": "dirty"}, {"op": "egrad", "obj": 1, "via": "dirty"},
+                                 {"op": "epartial", "obj": 1, "via": "reuse"}, {"op": "egrad", "obj": 1, "via": "reuse"}]
                     if with_props:
                         rows = (order + 1) * n
                         ups = []
@@ -340,7 +343,7 @@ def grad_execs(ctx, r, nrep, with_props=True, with_energy_grads=True):
                         ups += [upstream(r, order, n, dim, k) for k in kinds]
                         first = ups[-7]
                         for q, (g, t) in enumerate(ups):
-                            cmds.append(prop_cmd(1, g, t, "ref" if q % 2 else "ret"))
+                            cmds.append(prop_cmd(1, g, t, ("ref", "ret", "dirty", "reuse")[q % 4] if q >= len(ups) - 7 else ("ref" if q % 2 else "ret")))
                         cmds.append(prop_cmd(1, first[0], first[1]))     # repeated call after others: independent of earlier calls
                         if with_energy_grads:
                             cmds.append({"op": "egrad", "obj": 1})       # read-only queries do not disturb each other
@@ -360,9 +363,10 @@ def grad_execs(ctx, r, nrep, with_props=True, with_energy_grads=True):
                         if with_props:
                             for kind in ("dense", "real"):
                                 g, t = upstream(r, order, n, dim, kind)
-                                cmds.append(prop_cmd(1, g, t, r.choice(["ref", "ret"])))
+                                cmds.append(prop_cmd(1, g, t, r.choice(["ref", "ret", "reuse", "reuse", "dirty"])))
                         if with_energy_grads:
-                            cmds += [{"op": "egrad", "obj": 1, "via": r.choice(["ref", "parts"])}, {"op": "epartial", "obj": 1},
+                            cmds += [{"op": "egrad", "obj": 1, "via": r.choice(["ref", "parts", "reuse", "reuse", "dirty"])},
+                                     {"op": "epartial", "obj": 1, "via": r.choice(["ret", "reuse", "reuse", "dirty"])},
                                      {"op": "prop_epartial", "obj": 1}]
                     execs.append((len(cmds) * max(n1, n2) * dim + 10, cmds))
     return execs
